@@ -982,11 +982,17 @@ def _analyze_zipfile_for_import(zipfile, project, schema):
     mappings = {}
     skip_subdirs = set()
 
+    def _is_within(name, directory):
+        # Compare path components, not characters: 'a/10' is not within 'a/1'.
+        return (
+            directory == "" or name == directory or name.startswith(directory + "/")
+        )
+
     dirs = {os.path.dirname(name) for name in names}
     for name in sorted(dirs):
         cont = False
         for skip in skip_subdirs:
-            if name.startswith(skip):
+            if _is_within(name, skip):
                 cont = True
                 break
         if cont:
@@ -1007,7 +1013,7 @@ def _analyze_zipfile_for_import(zipfile, project, schema):
         )
 
     for src, job in mappings.items():
-        _names = [name for name in names if name.startswith(src)]
+        _names = [name for name in names if _is_within(name, src)]
         copy_executor = _CopyFromZipFileExecutor(zipfile, src, job, _names)
         yield src, copy_executor
 
